@@ -7,7 +7,7 @@
    preservation of local Delaunayhood by whole insert/remove, and local => global (Delaunay lemma); the global
    statement is therefore decided per implementation state by C01_checker_is_spec's checker. *)
 From Coq Require Import ZArith List Bool Arith Lia.
-From SpadeV Require Import Geom.Pred Geom.Lemmas Obs.State Obs.Spec Obs.SpecProp Obs.SpecProofs.
+From SpadeV Require Import Geom.Pred Geom.Lemmas Obs.State Obs.Spec Obs.SpecProp Obs.SpecProofs Dcel.Raw Dcel.WfCore Gen.DcelOps Tri.Legalize Tri.LegalizeProofs.
 Local Open Scope Z_scope.
 
 Theorem C01_checker_is_spec : forall s pts, delaunay_b s pts = true <-> Delaunay s pts.
@@ -36,6 +36,24 @@ Example C01_flip_instance :
   0 < orient a b c /\ 0 < orient b a d /\ 0 < incircle a b c d.
 Proof. vm_compute. repeat split; reflexivity. Qed.
 
+Local Close Scope Z_scope.
+(* ---- the legalization loop (model of TriangulationExt::legalize_edge over the GENERATED flip_cw; tied to the code by
+   index-exact comparison of the whole DCEL after calls of the real legalize_edge, tag `corr`) ---- *)
+(* whenever it terminates it leaves a well-formed triangulation whose inner faces are all counter-clockwise, with the same
+   vertices, counts, flags and outer face *)
+Theorem C01_legalize_preserves_valid_ccw_triangulation : forall pts fuel fully d stack b d' b',
+  DWf d -> FacesCcw (obs_of_dcel d) pts -> (forall e, In e stack -> e < length (d_hedges d)) ->
+  legalize pts fuel fully d stack b = Some (d', b') ->
+     DWf d' /\ FacesCcw (obs_of_dcel d') pts
+  /\ Raw.num_vertices d' = Raw.num_vertices d /\ Raw.num_undirected_edges d' = Raw.num_undirected_edges d /\ Raw.num_faces d' = Raw.num_faces d
+  /\ d_flags d' = d_flags d
+  /\ (forall v, v < Raw.num_vertices d -> let a := nth v (d_verts d') dflt_v in let b0 := nth v (d_verts d) dflt_v in
+                v_x a = v_x b0 /\ v_y a = v_y b0 /\ v_data a = v_data b0)
+  /\ (forall x, x < length (d_hedges d) -> (e_face d' x = 0 <-> e_face d x = 0)).
+Proof. exact legalize_invariant. Qed.
+
+
+Print Assumptions C01_legalize_preserves_valid_ccw_triangulation.
 Print Assumptions C01_checker_is_spec.
 Print Assumptions C01_flip_yields_ccw_faces.
 Print Assumptions C01_flipped_edge_is_legal.
